@@ -76,6 +76,11 @@ def run(ck):
         ck.evaluations += 1
         cell = p.get("cell", "random")
         rep = {"program": {"src": p["src"][:4000], "cell": cell, "inputs": p.get("inputs", [])}, "real": o}
+        if (o.get("died") or o.get("hang")) and not p.get("raw") and '"cycle"' in json.dumps(outs.get(p["id"])):
+            # a random program that builds a container containing itself (TengoSem meets the cycle): the recorded defect of the
+            # cyclic-* cells, reached by a generated program; death and "still recursing at the deadline" are the same failure
+            ck.violation("fatal:cyclic-random", "a random program builds a self-containing container and its traversal takes the host down\n%s" % p["src"][:600], rep)
+            continue
         if o.get("died"):
             ck.violation("fatal:" + cell, "a script killed the host process (fatal Go error, not recoverable): %s\n%s\n%s" % (
                 cell, p["src"][:400], (o.get("stderr") or "")[:300]), rep)
